@@ -2,6 +2,8 @@ SPECIFICATION SimSpec
 CONSTANTS
   WorkerCpus <- S1_Workers
   WorkerGroup <- S1_Groups
+  WorkerLife <- S1_Life
+  MaxTicks = 0
   Menu <- S1_Menu
   OpenJobs <- S1_Open
   Classes <- S1_Classes
